@@ -82,21 +82,25 @@ TrGEnd ==
 
 \* ---- distribution -------------------------------------------------------------
 SameFlow(grp, m) == \A i, j \in 1..Len(grp) : grp[i] = grp[j] => Close(m[i], m[j], 1)
-IterClauses(d, m) ==
+\* an iterate far outside the scale is logged clipped (wild = 1) with the sum
+\* of its exact flows beside it
+Total(e) == IF e.wild = 1 THEN e.sum ELSE SumSeq(e.m)
+IterClauses(d, m, tot) ==
   Cl(Len(m) = Len(d.grp), "EveryAssemblyGetsAFlow")
   \cup Cl(SameFlow(d.grp, m), "SameFlowInGroup")
-  \cup Cl(Close(SumSeq(m), d.mt, Len(m) + 2), "SumIsRequiredTotal")
+  \cup Cl(Close(tot, d.mt, Len(m) + 2), "SumIsRequiredTotal")
   \cup Cl(\A i \in 1..Len(m) : d.grp[i] < d.ng - 1 /\ d.lim[i] > 0 => m[i] <= d.lim[i] + 1,
           "HeldGroupsWithinLimit")
 TrDStart == /\ Live("DStart") /\ st' = [st EXCEPT !.d = Ev, !.lastm = <<>>]
             /\ Note(Cl(\A x \in 0..(Ev.ng - 1) : GroupCount(Ev.grp, x) >= 1,
                        "ExactlyRequestedNonEmptyGroups"))
 TrDIter == /\ Live("DIter") /\ st' = [st EXCEPT !.lastm = Ev.m]
-           /\ Note(IterClauses(st.d, Ev.m))
+           /\ Note(IterClauses(st.d, Ev.m, Total(Ev)))
 TrDEnd ==
   /\ Live("DEnd") /\ UNCHANGED st
   /\ IF Ev.out = "ok" THEN
-       Note(IterClauses(st.d, Ev.m)
+       Note(IterClauses(st.d, Ev.m, Total(Ev))
+            \cup Cl(Ev.wild = 0, "ReturnedFlowsWithinScale")
             \cup Cl(Ev.m = st.lastm, "ReturnedFlowsAreLastIteration")
             \cup Cl(\A i \in 1..Len(Ev.m) : st.d.lim[i] > 0 => Ev.m[i] <= st.d.lim[i] + 1,
                     "LimitNeverExceeded"))
